@@ -85,19 +85,24 @@ CLAIMS = [
     },
     {
         "property_id": "C01",
-        "technique": "Lean 4 invariant proof over a guarded transition system of the locking protocol (all schedules, threads, stripes, lock arrays) + sequential refinement of every critical section (C02); tied by K3: deterministic-scheduler executions of the real code, trace replay through the Lean acceptor, exhaustive linearizability search per history",
-        "text": "Props/C01.lean (protocol half): in every execution accepted by Cuckoo.Proto.accept — local syntactic rules on the synchronisation events "
-                "reported by the hooks — a validated thread works with the current hashpower and the current lock array (validated_is_current), a "
-                "sound snapshot with an unchanged resize counter is current unless a resizer sits between its change and its counter bump, and a stale "
-                "snapshot fails validation; proved by induction over arbitrary traces. K3 replays recorded traces of /repo through that very "
-                "acceptor (a swapped load pair, a dropped validation, a missing counter bump are rejected on the first execution that takes the "
-                "path) and explores 2-3 thread programs over find/insert/erase/update functors/rehash/reserve/clear/locked sections with "
-                "preemption-bounded and random schedules, checking each history for linearizability against a sequential map, final contents and "
-                "structural scan. PARTIAL: the step from 'validated critical sections on the current table, mutually exclusive per stripe' to "
-                "linearizability uses the sequential refinement of each critical section (C02) plus the classical two-phase-locking reduction, "
-                "which is not mechanised; helper threads are not modelled.",
+        "technique": "Lean 4: (1) invariant proof over a guarded transition system of the locking protocol, (2) refinement proof that every critical section of every operation — for arbitrary stale local data — is internal or the call's linearization point, (3) induction over arbitrary interleavings of sections; tied by K3 (deterministic-scheduler executions of the real code, trace replay through the Lean acceptor, exhaustive linearizability search per history)",
+        "text": "Props/C01.lean (protocol): in every execution accepted by Cuckoo.Proto.accept a validated thread works with the current hashpower and the "
+                "current lock array, a sound snapshot with an unchanged resize counter is current unless a resizer sits between its change and its "
+                "bump, a stale snapshot fails validation (induction over arbitrary traces, any number of threads/stripes/lock arrays). "
+                "Props/C01Conc.lean (linearizability): Model/Conc.lean defines the atomic critical sections of find_fn/update_fn/erase_fn, of the "
+                "inserting family (first try, intermediate hops, last hop + duplicate re-check + add + functor, expansion), of rehash/reserve and "
+                "clear, each applicable to ANY table state with ANY stale snapshot and path; every one is proved to preserve the invariant and to "
+                "be either internal (abstract map unchanged) or the call's final section applying exactly the sequential specification; "
+                "conc_linearizable: for every schedule (any finite interleaving of sections of any calls) the final sections in schedule order are a "
+                "sequential execution of the abstract map giving every response, and the final table represents the final map; "
+                "rc_check_implies_hp_check: an unchanged counter implies an unchanged hashpower along every schedule; never_stored_twice. "
+                "K3 replays recorded traces of /repo through the acceptor and explores 2-3 thread programs (crafted + random high-contention) with "
+                "preemption-bounded and random schedules, checking each history for linearizability, final contents and structure. "
+                "ASSUMED, not mechanised: that a lock-protected block of the real code is atomic on the current table (the protocol theorems + the "
+                "classical two-phase-locking reduction); locked_table sections and helper threads are not part of Conc.",
         "design_ref": "DESIGN.md 6/C01, 12",
-        "note": "Trusted: Lean kernel; hooks + baton scheduler + C++ linearizability search (K3); the scheduler yields sequentially consistent executions only.",
+        "note": "Trusted: Lean kernel; hooks + baton scheduler + C++ linearizability search (K3); the scheduler yields sequentially consistent executions only; "
+                "the correspondence between Conc's sections and the code's critical sections rests on K2 (same primitive functions) and K3, not on a generated skeleton.",
     },
     {
         "property_id": "C03",
